@@ -7,9 +7,9 @@ from .ops import (fresh, list_len, list_get, list_set, list_append, list_concat,
                   list_repeat, val_eq, truth, znot, zand, zor, zimplies, zite, zmin, zmax, to_symbolic, desc_of)
 from .interp import InterpBase, Frame, parse_expr
 
-SPEC_FUNCS = {"forall", "exists", "implies", "ite", "old", "prev", "seq_eq", "iff", "let", "count_true",
+SPEC_FUNCS = {"forall", "exists", "implies", "ite", "old", "prev", "defined", "seq_eq", "iff", "let", "count_true",
               "is_none", "opt_val", "strlen", "char_at", "substr", "in_re", "fresh_int", "imin", "imax",
-              "to_real", "distinct", "uf_str", "uf_int", "seq", "lam_seq", "str_of_int", "absv", "present", "iter_pos", "py_strip", "py_lower", "py_upper", "np_cast", "in_re"}
+              "to_real", "distinct", "uf_str", "uf_int", "uf_bool", "seq", "lam_seq", "str_of_int", "absv", "present", "iter_pos", "py_strip", "py_lower", "py_upper", "np_cast", "in_re"}
 
 
 class EvalMixin(InterpBase):
@@ -431,6 +431,7 @@ class EvalMixin(InterpBase):
                 finally:
                     sub.spec = was_spec
                 self.run.assume(z3.ForAll([k2], z3.Implies(z3.And(k2 >= 0, k2 < zint(R.length)), pr)))
+            self._filter_index_axioms(R, src, n, p, j, lambda jj: [(R.arr[a], src.arr[a]) for a in src.arr])
             return R
         R = fresh(("list", desc_of(val)), "filt", self.run)
         allpass = z3.ForAll([j], z3.Implies(z3.And(j >= 0, j < n), p))
@@ -438,6 +439,21 @@ class EvalMixin(InterpBase):
         self.run.assume(zint(R.length) <= n)
         self.run.assume(z3.Implies(allpass, same))
         return R
+
+    def _filter_index_axioms(self, R, src, n, p, j, pairs):
+        """More sound consequences of `[x for x in S if p(x)]`: R[k] IS S[idx(k)] for a strictly increasing index map whose images
+        satisfy p; nothing satisfying p precedes idx(0); R is empty only if no element of S satisfies p."""
+        idx = z3.Function(fresh_name("filt_idx"), z3.IntSort(), z3.IntSort())
+        k = z3.Int(fresh_name("k"))
+        rl = zint(R.length)
+        same_at = z3.And([ra[k] == sa[idx(k)] for (ra, sa) in pairs(None)])
+        self.run.assume(z3.ForAll([k], z3.Implies(z3.And(k >= 0, k < rl),
+                                                  z3.And(idx(k) >= 0, idx(k) < n, same_at, z3.substitute(p, (j, idx(k))),
+                                                         z3.Implies(k > 0, idx(k - 1) < idx(k))))))
+        self.run.assume(z3.Implies(rl == 0, z3.ForAll([j], z3.Implies(z3.And(j >= 0, j < n), z3.Not(p)))))
+        self.run.assume(z3.Implies(rl > 0, z3.ForAll([j], z3.Implies(z3.And(j >= 0, j < idx(0)), z3.Not(p)))))
+        self.trusted.add("engine: filter comprehension: R[k] = S[idx(k)] for a strictly increasing idx with p(S[idx(k)]); no element satisfying p "
+                         "precedes idx(0); R empty only if no element of S satisfies p")
 
     def multi_comprehension(self, node, fr, elt):
         """Several `for` clauses: supported when every iterated sequence has a concrete length."""
@@ -520,6 +536,9 @@ class EvalMixin(InterpBase):
                 if id(node) in fr.olds:
                     return fr.olds[id(node)]
                 raise EngineError(f"{nm}() evaluated outside a postcondition / loop step clause")
+            if nm == "defined" and fr.spec and len(node.args) == 1 and isinstance(node.args[0], ast.Constant):
+                # defined('x'): has the function's local x been assigned on this path? (ghost access in raises / ensures clauses)
+                return fr.lookup(node.args[0].value)[0]
             if nm in ("forall", "exists") and fr.spec:
                 return self.quantifier(node, fr, nm)
             if nm == "implies" and fr.spec and len(node.args) == 2:
